@@ -330,7 +330,51 @@ def bound(tier):
     return b
 
 
+# ----------------------------------------------------------------------------- histories
+def history_conformance(t, m, report):
+    """the file written in every state the history explorer reaches is decoded by the spec reader"""
+    import h5py
+    import numpy as np
+    dense = np.asarray(t.matrix_data.toarray(), float)
+    if dense.size and not np.isfinite(dense).all():
+        return
+    if tuple(t.shape) != (len(t.ids('observation')), len(t.ids())):
+        return          # incoherent source: C05's business
+    if not c01.md_in_domain(t):
+        report.count('history:skipped-metadata-outside-domain')
+        return
+    src = c01.observe_source(t)
+    fh = h5py.File('c04-hist-%d-%d.h5' % (os.getpid(), id(t)), 'w', driver='core', backing_store=False)
+    try:
+        try:
+            t.to_hdf5(fh, 'verif', creation_date=c01.DATE)
+        except Exception as e:
+            report('history:writer-raised:' + type(e).__name__, 'to_hdf5 raised %s: %s' % (type(e).__name__, e))
+            return
+        try:
+            dec = h5spec.decode(fh)
+        except Exception as e:
+            report('history:undecodable:' + type(e).__name__, 'the raw-h5py decoder cannot walk the file: %s' % e)
+            return
+    finally:
+        fh.close()
+    probs = list(dec['problems']) + list(h5spec.compare(dec, src))
+    for clause, detail in probs[:3]:
+        report('history:' + clause, detail)
+    if not probs:
+        report.count('clause:history-conformance')
+
+
+def history_spec(depth):
+    from .. import explorer as E
+    from .. import ops as OPS
+    return E.Spec(OPS.start_tables(), OPS.all_ops(), depth, check_ops=(), on_state=history_conformance,
+                  label='histories-d%d' % depth)
+
+
 def run(run):
+    from .. import explorer as E
+    E.explore(run, history_spec(2 if run.quick else 3))
     cs = cases(run.tier, run.seed)
     P.run_cases(run, cs, check)
     c = run.acc.counters
@@ -345,7 +389,7 @@ def run(run):
         'ids-vs-source:non-ascii', 'metadata-length', 'metadata-values', 'group-metadata',
         'csr-wellformed', 'csc-wellformed', 'csr-vs-csc', 'matrix-vs-source',
         'matrix-vs-source:non-zero')]
-    need += ['class:empty-axis', 'class:all-zero']
+    need += ['class:empty-axis', 'class:all-zero', 'clause:history-conformance']
     need += ['writer:' + x for x in WRITERS] + ['compress:on', 'compress:off']
     need += ['prod:' + p for p in ('A', 'B-ids', 'B-md', 'B-x', 'B-hdr', 'B-type', 'E')]
     need += ['route:' + r for r in E_ROUTES]
@@ -368,4 +412,7 @@ def run(run):
 
 
 def replay(case):
+    if 'history' in case:
+        from .. import explorer as E
+        return E.replay_history(history_spec(len(case['history'])), case)
     return P.replay_case(check, case)
